@@ -132,3 +132,4 @@ fn k_rt_4_cancellation_count() {
     vcover!();
     std::mem::forget(rt);
 }
+
